@@ -25,7 +25,7 @@ from pymap.interfaces.session import SessionInterface
 from pymap.parsing.exceptions import NotParseable
 from pymap.parsing.primitives import String
 from pysasl.creds.server import ServerCredentials
-from pysasl.exception import AuthenticationError
+from pysasl.exception import AuthenticationError, InvalidResponse
 from pysasl.mechanism import ServerChallenge, ChallengeResponse
 
 from .command import Command, NoOpCommand, LogoutCommand, CapabilityCommand, \
@@ -223,38 +223,49 @@ class ManageSieveConnection:
                 return Response(Condition.NO, text=str(exc))
         return CapabilitiesResponse(self.capabilities)
 
+    @classmethod
+    def _decode_sasl(cls, data: bytes) -> bytes:
+        try:
+            return b64decode(data)
+        except binascii.Error as exc:
+            raise InvalidResponse() from exc
+
     async def _do_authenticate(self, cmd: AuthenticateCommand) -> Response:
         mech = self.auth.get_server(cmd.mech_name)
         if not mech:
             return Response(Condition.NO, text='Invalid SASL mechanism.')
         responses: list[ChallengeResponse] = []
-        if cmd.initial_data is not None:
-            resp_dec = b64decode(cmd.initial_data)
-            responses.append(ChallengeResponse(b'', resp_dec))
-        while True:
-            try:
-                creds, final = mech.server_attempt(responses)
-            except ServerChallenge as chal:
-                chal_bytes = b64encode(chal.data)
-                chal_str = String.build(chal_bytes)
-                chal_str.write(self.writer)
-                self.writer.write(b'\r\n')
-                await self.writer.drain()
-                resp_bytes = await self._read_data()
-                resp_str, _ = String.parse(resp_bytes, self.params)
-                if resp_str.value == b'*':
-                    raise AuthenticationError('Authentication cancelled.') \
-                        from None
+        try:
+            if cmd.initial_data is not None:
+                resp_dec = self._decode_sasl(cmd.initial_data)
+                responses.append(ChallengeResponse(b'', resp_dec))
+            while True:
                 try:
-                    resp_dec = b64decode(resp_str.value)
-                except binascii.Error as exc:
-                    raise AuthenticationError() from exc
-                else:
+                    creds, final = mech.server_attempt(responses)
+                except ServerChallenge as chal:
+                    chal_bytes = b64encode(chal.data)
+                    chal_str = String.build(chal_bytes)
+                    chal_str.write(self.writer)
+                    self.writer.write(b'\r\n')
+                    await self.writer.drain()
+                    resp_bytes = await self._read_data()
+                    try:
+                        resp_str, _ = String.parse(resp_bytes, self.params)
+                    except NotParseable as exc:
+                        raise InvalidResponse() from exc
+                    if resp_str.value == b'*':
+                        raise AuthenticationError(
+                            'Authentication cancelled.') from None
+                    resp_dec = self._decode_sasl(resp_str.value)
                     responses.append(ChallengeResponse(chal.data, resp_dec))
-            except AuthenticationError as exc:
-                return Response(Condition.NO, text=str(exc))
-            else:
-                break
+                except UnicodeError as exc:
+                    # the mechanisms decode identities and secrets as UTF-8
+                    raise InvalidResponse() from exc
+                else:
+                    break
+        except AuthenticationError as exc:
+            # also those raised while a challenge was being handled
+            return Response(Condition.NO, text=str(exc))
         if final is None:
             code: bytes | None = None
         else:
